@@ -567,7 +567,118 @@ theorem C15_config_use_has_no_memory_fails_with_shared_cache :
    { chain := [.s1good], clientAuth := .off, alpn := [alpnH2] },
    rfl, rfl, rfl, rfl, by decide, by decide⟩
 
+/-! ### generated `connect(dst)` over an endpoint value; the `Server` builder chain -/
+
+/-- `Endpoint::new(uri)` is `Endpoint::new` of the unconfigured endpoint for that URI: the `dst`
+type a generated `connect` function is called with (string, `Uri`, fresh `Endpoint`) plays no part. -/
+theorem C15_endpoint_new_of_uri (sys : Sys Root) (uri : Uri) :
+    Endpoint.newFrom sys (Endpoint.fromShared (Root := Root) (Chain := Chain) uri) = Endpoint.new sys uri := by
+  simp only [Endpoint.newFrom, Endpoint.new, Endpoint.fromShared, Option.isNone_none, Bool.true_and]
+  by_cases h : uri.scheme = some .https <;> simp [h]
+
+/-- **`Endpoint::new` keeps the caller's TLS configuration.** An endpoint that carries a TLS
+connector — any `tls_config` the caller made — comes out of `Endpoint::new` (hence out of a
+generated `connect(endpoint)`) unchanged; so does every endpoint that is not https. -/
+theorem C15_endpoint_new_keeps_configuration (sys : Sys Root) (ep : Endpoint Root Chain)
+    (h : ep.tls.isSome = true ∨ ep.uri.scheme ≠ some .https) :
+    Endpoint.newFrom sys ep = .ok ep := by
+  unfold Endpoint.newFrom
+  cases h with
+  | inl h =>
+    cases ht : ep.tls with
+    | none => simp [ht] at h
+    | some t => simp
+  | inr h => simp [h]
+
+/-- **A generated client over a configured endpoint connects only to the server the caller's
+configuration admits.** `Endpoint::from_shared(uri)?.tls_config(cfg)?` handed to a generated
+`connect(dst)` (`Endpoint::new(dst)`): the channel gets an IO only under exactly the conditions of
+`C15_client_connects_only_if` for the CALLER's builder sequence — configured roots, configured (or
+URI) name, h2 unless the caller opted out. -/
+theorem C15_generated_client_keeps_caller_configuration
+    (verifies : List Root → Chain → String → Bool) (verifiesClient : List Root → Chain → Bool)
+    (hs : Handshake Root Chain) (laws : RustlsLaws verifies verifiesClient hs)
+    (sys : Sys Root) (uri : Uri) (ops : List (ClientOp Root Chain)) (ep ep' : Endpoint Root Chain)
+    (srv : ServerHello Root Chain) (dialOk : Bool) (io : Io)
+    (hcfg : (Endpoint.fromShared uri).tlsConfig sys (ClientTlsConfig.build ops) = .ok ep)
+    (hnew : Endpoint.newFrom sys ep = .ok ep')
+    (hhttps : uri.scheme = some .https)
+    (hconn : Connector.call ep' dialOk (fun c => (hs c srv).client) = .ok io) :
+    ∃ a, io = .tls a ∧ MayTransmit verifies sys ops uri srv.chain a := by
+  obtain ⟨_, t, ht, _⟩ := C15_connector_uses_configuration sys uri ops ep hcfg
+  have hk := C15_endpoint_new_keeps_configuration sys ep (Or.inl (by simp [ht]))
+  rw [hk] at hnew
+  cases hnew
+  exact C15_client_connects_only_if verifies verifiesClient hs laws sys uri ops ep srv dialOk io hcfg hhttps hconn
+
+open Tls.TestPki in
+/-- Of the tree as found (0.13.0) the previous statement is FALSE: `Endpoint::new` replaced the
+TLS configuration of every https endpoint by `ClientTlsConfig::new().with_enabled_roots()`.  In
+the test world, in a build with `tls-native-roots` whose platform store holds CA 2: an endpoint the
+caller configured to trust CA 1 only, handed to a generated `connect`, connects (h2) to a server
+certified by CA 2 — which does not verify against the configured roots.  Same case as the corpus
+line `tlsf n ca2 https good ca:ca1 | https good @0 new ; s2good h2 - tcp`. -/
+theorem C15_generated_client_keeps_caller_configuration_asis_fails :
+    ∃ (ops : List (ClientOp Cert (List Cert))) (uri : Uri) (ep ep' : Endpoint Cert (List Cert))
+      (srv : ServerHello Cert (List Cert)),
+      (Endpoint.fromShared uri).tlsConfig (sysWith false [.ca2]) (ClientTlsConfig.build ops) = .ok ep ∧
+      Endpoint.newFromAsIs (sysWith false [.ca2]) ep = .ok ep' ∧
+      uri.scheme = some .https ∧
+      Connector.call ep' true (fun c => (handshake c srv).client) = .ok (.tls (some alpnH2)) ∧
+      expectedName ops uri = some "good.test" ∧
+      verifies (configuredRoots (sysWith false [.ca2]) ops) srv.chain "good.test" = false :=
+  ⟨[.caCertificate (some [.ca1])], { scheme := some .https, host := some "good.test" }, _, _,
+   { chain := [.s2good], clientAuth := .off, alpn := [alpnH2] },
+   rfl, rfl, rfl, rfl, by decide, by decide⟩
+
+/-- **The last `Server::tls_config` decides; `Server::layer` is invisible.** For every `Server`
+builder chain (any number of `tls_config` calls and `layer` calls in any order) that comes
+through: the acceptor the serve loop gets is the one built from the LAST `tls_config` call's
+configuration — whatever earlier calls configured (e.g. a configuration without client
+authentication) is gone, and layers added before or after change nothing; with no `tls_config`
+call there is no TLS. -/
+theorem C15_server_builder_last_tls_config_wins (steps : List (ServerStep Root Chain))
+    (tls : Option (ServerHello Root Chain)) (h : ServerBuilder.run steps = .ok tls) :
+    match (steps.filterMap (fun st => match st with | .tlsConfig ops => some ops | .layer => none)).getLast? with
+    | none => tls = none
+    | some ops => ∃ s, (ServerTlsConfig.build ops).tlsAcceptor = .ok s ∧ tls = some s := by
+  have key : ∀ (steps : List (ServerStep Root Chain)) (t0 tls : Option (ServerHello Root Chain)),
+      ServerBuilder.runFrom t0 steps = .ok tls →
+      match (steps.filterMap (fun st => match st with | .tlsConfig ops => some ops | .layer => none)).getLast? with
+      | none => tls = t0
+      | some ops => ∃ s, (ServerTlsConfig.build ops).tlsAcceptor = .ok s ∧ tls = some s := by
+    intro steps
+    induction steps with
+    | nil => intro t0 tls h; simp only [ServerBuilder.runFrom] at h; cases h; simp
+    | cons st rest ih =>
+      intro t0 tls h
+      cases st with
+      | layer =>
+        simp only [ServerBuilder.runFrom, ServerStep.apply] at h
+        simpa using ih t0 tls h
+      | tlsConfig ops =>
+        simp only [ServerBuilder.runFrom, ServerStep.apply] at h
+        cases ha : (ServerTlsConfig.build ops).tlsAcceptor with
+        | err e => simp [ha] at h
+        | panic => simp [ha] at h
+        | ok s =>
+          simp only [ha] at h
+          have := ih (some s) tls h
+          simp only [List.filterMap_cons]
+          cases hl : (rest.filterMap (fun st => match st with | .tlsConfig ops => some ops | .layer => none)).getLast? with
+          | none =>
+            simp only [hl] at this
+            have hnil : rest.filterMap (fun st => match st with | .tlsConfig ops => some ops | .layer => none) = [] := by
+              simpa using hl
+            simp only [hnil, List.getLast?_singleton]
+            exact ⟨s, ha, this⟩
+          | some ops' =>
+            simp only [hl] at this
+            rw [List.getLast?_cons_of_ne_nil (by intro hn; simp [hn] at hl)] <;> simp [hl, this]
+  exact key steps none tls h
+
 /-! ### non-vacuity -/
+
 
 open Tls.TestPki in
 /-- The contract assumed of rustls is satisfiable: the concrete world of the correspondence
@@ -718,6 +829,28 @@ example :
       (fun r => match r with | .ok ep => ep.tls.map (fun t => (t.domain, t.roots, t.assumeHttp2)) | .error _ => none))
       = some ("bad.test", [.ca1], true) := by
   exact ⟨rfl, by decide⟩
+
+/-- The hypotheses of `C15_generated_client_keeps_caller_configuration` are met: in a build whose
+platform store holds CA 2, an endpoint configured to trust CA 1 (name from the URI) goes through
+`Endpoint::new` and connects to the CA-1 server — and NOT to the CA-2 server the default
+configuration of generated clients would have accepted. -/
+example :
+    ∃ ep, (Endpoint.fromShared genUri).tlsConfig (sysWith false [.ca2])
+        (ClientTlsConfig.build ([.caCertificate (some [.ca1])] : List (ClientOp Cert (List Cert)))) = .ok ep ∧
+      Endpoint.newFrom (sysWith false [.ca2]) ep = .ok ep ∧
+      Connector.call ep true (fun c => (handshake c (h2Server .s1good [alpnH2])).client) = .ok (.tls (some alpnH2)) ∧
+      Connector.call ep true (fun c => (handshake c (h2Server .s2good [alpnH2])).client) = .error (.badCert .unknownIssuer) := by
+  exact ⟨_, rfl, rfl, rfl, rfl⟩
+
+/-- The hypothesis of `C15_server_builder_last_tls_config_wins` is met by a chain with an earlier
+permissive `tls_config`, layers on both sides, and the mTLS configuration last: the serve loop's
+acceptor requires client certificates of CA 1. -/
+example :
+    ∃ s, ServerBuilder.run (Root := Cert) (Chain := List Cert)
+        [.tlsConfig [.identity { cert := some [.s1good], keyOk := true, accepted := true }, .clientAuthOptional true],
+         .layer, .tlsConfig goodSrvOps, .layer] = .ok (some s) ∧
+      (match s.clientAuth with | .required rs => rs == [Cert.ca1] | _ => false) = true := by
+  exact ⟨_, rfl, by decide⟩
 
 end Examples
 
